@@ -9,6 +9,7 @@
 EXTENDS Naturals, Integers, Sequences, TLC, Json, IOUtils
 VARIABLES st, l
 PA == INSTANCE Patch WITH AsFoundP <- {}
+PK == INSTANCE Patch WITH AsFoundP <- {"test_kind_strict"}     \* json-c's `test`: numbers of different kinds are never equal (D13h)
 Judged(r) == r.patch.t = "array" => \A i \in 1..Len(r.patch.e) : ~PA!WholeDoc(r.patch.e[i])
 PatchOk(r) ==
     /\ r.patch_after = r.patch
@@ -16,9 +17,10 @@ PatchOk(r) ==
     /\ ~r.shared_self /\ ~r.shared_patch /\ ~r.shared_src
     /\ r.has_msg
     /\ IF ~Judged(r) THEN TRUE
-       ELSE LET a == PA!Apply(r.doc, r.patch) IN
-            IF a.ok THEN r.ret = 0 /\ r.result = a.doc
-            ELSE r.ret # 0 /\ (a.idx >= 0 => r.idx = a.idx)
+       ELSE LET a == PA!Apply(r.doc, r.patch)
+                Agree(x) == IF x.ok THEN r.ret = 0 /\ r.result = x.doc ELSE r.ret # 0 /\ (x.idx >= 0 => r.idx = x.idx)
+            \* (a run that is not the RFC's but is exactly the kind-strict one is tagged: known finding D13h)
+            IN Agree(a) \/ (Agree(PK!Apply(r.doc, r.patch)) /\ PrintT(<<"TESTNUM", l>>) /\ FALSE)
 StepOfImpl(s, r) == [ok |-> PatchOk(r), st |-> s]
 TraceLog == ndJsonDeserialize(IOEnv.TRACE)
 T == INSTANCE TraceBase WITH Log <- TraceLog, InitSt <- 0, StepOf <- StepOfImpl, ResyncAtNew <- FALSE
